@@ -119,19 +119,17 @@ fn c13_one(v1: bool, kind: u8, fail: u8) {
     let (api, script) = CloneableWbApi::scripted(fail);
     let (tx, mut rx) = mpsc::channel::<ServerMessage>(4);
     let cid = ClientId::from_u128(1);
-    let v0h = V0 { client_id: cid, tx, auth_required: false, config: Config { auth_token_key: None, channel_buffer_size: 4 }, worterbuch: api };
+    let proto = Proto::new(cid, tx, false, Config { auth_token_key: None, channel_buffer_size: 4 }, api);
     let mut authorized: Option<JwtClaims> = None;
     let spawned0 = crate::tasks_spawned();
+    // (the handlers are built by the real Proto::new; v1 is what a session speaks after the handshake, v0 after
+    // a protocol switch to version 0)
     let r = if v1 {
-        let h = V1::new(v0h);
-        let r = aw!(h.process_incoming_message(request(kind, tid), &mut authorized));
-        core::mem::forget(h);
-        r
+        aw!(proto.latest.process_incoming_message(request(kind, tid), &mut authorized))
     } else {
-        let r = aw!(v0h.process_incoming_message(request(kind, tid), &mut authorized));
-        core::mem::forget(v0h);
-        r
+        aw!(proto.latest.v0.process_incoming_message(request(kind, tid), &mut authorized))
     };
+    core::mem::forget(proto);
     // a request - also one the core refuses - never ends the session
     assert!(r.is_ok(), "C13: a request that fails does not end the session (the handler returns Ok, the answer is an Err message)");
     core::mem::forget(r);
@@ -186,6 +184,18 @@ fn c13_kind(v1: bool, kind: u8) {
     kani::cover!(fail == 0);
     kani::cover!(fail == 3);
 }
+macro_rules! c13h4 {
+    ($name:ident, $g:expr) => {
+        #[kani::proof]
+        #[kani::unwind(6)]
+        #[kani::stub(std::fmt::format, stub_format)]
+        #[kani::stub(std::mem::MaybeUninit::write, stub_mu_write)]
+        #[kani::stub(::miette::eyreish::capture_handler, stub_capture_handler)]
+        fn $name() {
+            c13_acquire_outcome($g)
+        }
+    };
+}
 macro_rules! c13h {
     ($name:ident, $v1:expr, $kind:expr) => {
         #[kani::proof]
@@ -236,6 +246,63 @@ c13h!(c13_v1_unsubscribe_ls, true, K_UNSUBSCRIBE_LS);
 c13h!(c13_v1_lock, true, K_LOCK);
 // @h props=C13 tier=quick cap=900 desc="v1 acquire_lock: nothing queued before the grant, one confirmation task; refused -> Err" bounds="tid u64; 4 core answers"
 c13h!(c13_v1_acquire_lock, true, K_ACQUIRE);
+/// the confirmation task of an accepted acquire_lock: exactly one terminal answer with the request's id - an Ack
+/// when the lock is granted, Err LockAcquisitionCancelled when the core drops the request (the waiter gave up or
+/// was removed from the queue) - and only then
+fn c13_acquire_outcome(granted: bool) {
+    let tid: u64 = kani::any();
+    let (api, script) = CloneableWbApi::scripted(0);
+    let (tx, mut rx) = mpsc::channel::<ServerMessage>(4);
+    let proto = Proto::new(ClientId::from_u128(1), tx, false, Config { auth_token_key: None, channel_buffer_size: 4 }, api);
+    let mut authorized: Option<JwtClaims> = None;
+    let r = aw!(proto.latest.process_incoming_message(request(K_ACQUIRE, tid), &mut authorized));
+    assert!(r.is_ok(), "C13: acquire_lock accepted");
+    core::mem::forget(r);
+    // (in the model a task that has to wait never completes - the path would be pruned - so the task is only
+    // run after the core decided; natively the runtime may schedule it at once)
+    if crate::tasks_spawned().is_none() {
+        crate::run_tasks();
+    }
+    let early = rx.try_recv();
+    assert!(early.is_err(), "C13: no confirmation before the core decided");
+    core::mem::forget(early);
+    let ltx = unsafe { core::ptr::replace(&mut (*script).lock_tx, None) };
+    match ltx {
+        Some(t) => {
+            if granted {
+                let x = t.send(());
+                core::mem::forget(x);
+            } else {
+                drop(t);
+            }
+        }
+        None => assert!(false, "stand-in: acquire_lock reached the core"),
+    }
+    crate::run_tasks();
+    let first = rx.try_recv();
+    match &first {
+        Ok(m) => {
+            let (ak, atid, code) = classify(m);
+            assert!(atid == tid, "C13: the confirmation carries the id of its acquire_lock request");
+            if granted {
+                assert!(ak == A_ACK, "C13: a granted lock is confirmed with an Ack");
+            } else {
+                assert!(ak == A_ERR && code == Some(ErrorCode::LockAcquisitionCancelled), "C13: a cancelled acquire_lock is answered with Err LockAcquisitionCancelled");
+            }
+        }
+        Err(_) => assert!(false, "C13: every acquire_lock gets its terminal answer once the core has decided (granted or cancelled)"),
+    }
+    core::mem::forget(first);
+    let second = rx.try_recv();
+    assert!(second.is_err(), "C13: exactly one terminal answer");
+    core::mem::forget(second);
+    core::mem::forget(proto);
+    kani::cover!(true);
+}
+// @h props=C13,C06 tier=quick cap=900 desc="v1 acquire_lock, lock granted later: the confirmation task answers Ack with the request's id, once" bounds="tid u64"
+c13h4!(c13_v1_acquire_granted, true);
+// @h props=C13,C06 tier=quick cap=900 desc="v1 acquire_lock, request cancelled by the core: the task answers Err LockAcquisitionCancelled with the request's id, once" bounds="tid u64"
+c13h4!(c13_v1_acquire_cancelled, false);
 // @h props=C13 tier=quick cap=900 desc="v1 release_lock" bounds="tid u64; 4 core answers"
 c13h!(c13_v1_release_lock, true, K_RELEASE);
 // @h props=C13 tier=quick cap=900 desc="v0 get" bounds="tid u64; 4 core answers"
@@ -284,18 +351,16 @@ fn c13_unimplemented(v1: bool, kind: u8) {
     let tid: u64 = kani::any();
     let (api, script) = CloneableWbApi::scripted(0);
     let (tx, mut rx) = mpsc::channel::<ServerMessage>(4);
-    let v0h = V0 { client_id: ClientId::from_u128(1), tx, auth_required: false, config: Config { auth_token_key: None, channel_buffer_size: 4 }, worterbuch: api };
+    let proto = Proto::new(ClientId::from_u128(1), tx, false, Config { auth_token_key: None, channel_buffer_size: 4 }, api);
     let mut authorized: Option<JwtClaims> = None;
+    // (the handlers are built by the real Proto::new; v1 is what a session speaks after the handshake, v0 after
+    // a protocol switch to version 0)
     let r = if v1 {
-        let h = V1::new(v0h);
-        let r = aw!(h.process_incoming_message(request(kind, tid), &mut authorized));
-        core::mem::forget(h);
-        r
+        aw!(proto.latest.process_incoming_message(request(kind, tid), &mut authorized))
     } else {
-        let r = aw!(v0h.process_incoming_message(request(kind, tid), &mut authorized));
-        core::mem::forget(v0h);
-        r
+        aw!(proto.latest.v0.process_incoming_message(request(kind, tid), &mut authorized))
     };
+    core::mem::forget(proto);
     let ended = r.is_err();
     core::mem::forget(r);
     let first = rx.try_recv();
